@@ -1153,7 +1153,11 @@ func main() {
 	}
 	for i := 0; i < nRev; i++ {
 		g := &gen{root.Fork()}
-		in := input{Kind: "reverse", Postings: g.postings(g.r.Intn(8), 4, 0, false, false)}
+		n := g.r.Intn(8)
+		if i%5 == 4 { // long lists: 11..40 postings over many accounts (a library sort is exact only on short slices)
+			n = []int{11, 12, 13, 14, 15, 16, 20, 25, 33, 40}[(i/5)%10]
+		}
+		in := input{Kind: "reverse", Postings: g.postings(n, 4+n/2, 0, false, false)}
 		g.envelope(&in)
 		one(r, in)
 	}
